@@ -87,149 +87,163 @@ def run(ctx: core.Ctx) -> int:
         okm = kws == {k: f"self.{k}" for k in ("symbolic_model", "process_noise", "sensor_models", "sensor_noises", "calibration_map", "config")}
     ctx.oblige("SEQUENCE", where, "self.model_ = compile_ekf(<the adapter's own six parameters>)", okm, file=F, func=q, construct="model_ construction",
                msg="transform does not run the filter compiled from exactly the adapter's own parameters")
-    # row loop
-    loops = [s for s in tr.body if isinstance(s, ast.For)]
-    row = None
-    for lp in loops:
-        if any(isinstance(c, ast.Call) and ast.unparse(c.func).endswith("process_model") for c in ast.walk(lp)):
-            row = lp
+    # ---- normalised statement list (tuple assignments split, single-assignment aliases substituted)
+    from .. import normstmt
+    items = normstmt.flatten(tr)
+    al = normstmt.Aliases(tr, items)
+    T = al.text
+    C = "self.model_.control_size"
+
+    def calls_in(it_, suffix):
+        return [c for c in ast.walk(it_.value) if isinstance(c, ast.Call) and ast.unparse(c.func).endswith(suffix)] if it_.value is not None else []
+    row = next((i.stmt for i in items if i.kind == "for-begin" and any(isinstance(c, ast.Call) and ast.unparse(c.func).endswith(".process_model")
+                                                                    for c in ast.walk(i.stmt))), None)
     if row is None:
         raise core.AnalysisError(f"{where}: no row loop calling process_model found")
-    it_txt = ast.unparse(row.iter).replace(" ", "")
-    ok_rows = it_txt in ("range(X.shape[0])", "range(n_samples)", "range(len(X))") or (isinstance(row.iter, ast.Name) and row.iter.id == "X") \
-        or it_txt == "enumerate(X)"
-    ctx.oblige("SEQUENCE", where, f"rows iterated by `{ast.unparse(row.iter)}`", ok_rows, file=F, func=q, construct="row loop",
-               msg=f"rows are iterated through `{ast.unparse(row.iter)}`, not every row in order")
+    rows_txt = T(row.iter)
+    ok_rows = rows_txt in ("range(X.shape[0])", "range(n_samples)", "range(len(X))")
     ridx = row.target.id if isinstance(row.target, ast.Name) else None
-    # statements of the row loop in order
-    env = {}
-    csize = "self.model_.control_size"
-    seq = []
-    inner = None
-    for s in row.body:
-        if isinstance(s, ast.For):
-            if any(isinstance(c, ast.Call) and ast.unparse(c.func).endswith("sensor_model") for c in ast.walk(s)):
-                inner = s
-                seq.append(("sensor-loop", s))
-            continue
-        for c in ast.walk(s):
-            if isinstance(c, ast.Call) and ast.unparse(c.func).endswith(".process_model"):
-                seq.append(("process", s, c))
-        if isinstance(s, ast.Assign):
-            seq.append(("assign", s))
-    # ---- CONSUME: control prefix
-    first = next((s for k, s, *_ in seq if k == "assign" and isinstance(s.value, ast.Tuple) and len(s.value.elts) == 2
-                  and all(isinstance(e, ast.Subscript) for e in s.value.elts)), None)
-    okc, why = False, "no `controls, rest = X[row, :C], X[row, C:]` split found"
-    rest_name = ctl_name = None
-    if first is not None and isinstance(first.targets[0], ast.Tuple):
-        a, b = first.value.elts
-        ctl_name, rest_name = (t.id if isinstance(t, ast.Name) else None for t in first.targets[0].elts)
-        sa, sb = ast.unparse(a).replace(" ", ""), ast.unparse(b).replace(" ", "")
-        okc = sa == f"X[{ridx},:{csize}]" and sb == f"X[{ridx},{csize}:]"
-        why = f"row is split as `{sa}` / `{sb}`; required X[{ridx}, :{csize}] / X[{ridx}, {csize}:]"
-    ctx.oblige("CONSUME", where, "controls = first model_.control_size columns, remainder follows", okc, file=F, func=q, construct="control split", msg=why)
-    # ---- process call
-    procs = [x for x in seq if x[0] == "process"]
-    okp, why = len(procs) == 1, f"{len(procs)} process_model calls per row"
-    if okp:
-        _, stmt, call = procs[0]
-        args = [ast.unparse(a) for a in call.args] + [f"{k.arg}={ast.unparse(k.value)}" for k in call.keywords]
-        dt_name = call.args[0].id if call.args and isinstance(call.args[0], ast.Name) else None
-        dt_def = [s for s in tr.body if isinstance(s, ast.Assign) and isinstance(s.targets[0], ast.Name) and s.targets[0].id == dt_name]
-        okdt = len(dt_def) == 1 and isinstance(dt_def[0].value, ast.Constant) and isinstance(dt_def[0].value.value, float) and dt_def[0].value.value > 0
-        tg = ast.unparse(stmt.targets[0]).replace(" ", "").strip("()") if isinstance(stmt, ast.Assign) else ""
-        okp = okdt and len(call.args) == 4 and args[1:3] == ["state", "covariance"] and tg == "state,covariance"
-        ctl_arg = call.args[3] if len(call.args) == 4 else None
-        why = f"process_model({', '.join(args)}) -> {tg}; required (fixed dt, state, covariance, controls) -> state, covariance"
-        # control argument derives from the control slice through Control.from_data(reshape((control_size, 1)))
-        okctl = False
-        if isinstance(ctl_arg, ast.Name):
-            defs = [s for s in row.body if isinstance(s, ast.Assign) and ast.unparse(s.targets[0]) == ctl_arg.id and s is not first]
-            if defs:
-                v = ast.unparse(defs[-1].value).replace(" ", "")
-                okctl = v == f"self.model_.Control.from_data({ctl_name}.reshape(({csize},1)))"
-        ctx.oblige("SEQUENCE", where, "controls -> Control.from_data(column of control_size)", okctl, file=F, func=q, construct="control reading",
-                   msg="the control passed to process_model is not Control.from_data of the row's control columns")
-    ctx.oblige("SEQUENCE", where, "one prediction per row with the fixed step, threading (state, covariance)", okp, file=F, func=q, construct="process call", msg=why)
-    # ---- sensor loop
-    if inner is None:
+    if not ok_rows:
+        if "sorted" in rows_txt or "reversed" in rows_txt or "[::" in rows_txt:
+            ctx.oblige("SEQUENCE", where, f"rows iterated by `{rows_txt}`", False, file=F, func=q, construct="row loop",
+                       msg=f"rows are iterated through `{rows_txt}`, not every row in the given order")
+        else:
+            ctx.error(f"{where}: row loop `{rows_txt}` is not an enumerated idiom")
+    else:
+        ctx.oblige("SEQUENCE", where, f"rows iterated by `{rows_txt}`", True, file=F, func=q, construct="row loop")
+    in_row = [i for i in items if i.loops == (row,)]
+    sens = next((i.stmt for i in in_row if i.kind == "for-begin" and any(isinstance(c, ast.Call) and ast.unparse(c.func).endswith(".sensor_model")
+                                                                          for c in ast.walk(i.stmt))), None)
+    if sens is None:
         raise core.AnalysisError(f"{where}: no per-sensor loop calling sensor_model found")
-    order_ok = [k for k, *_ in seq if k in ("process", "sensor-loop")] == ["process", "sensor-loop"]
+    in_sens = [i for i in items if i.loops == (row, sens)]
+    # ---- CONSUME: control prefix and remainder
+    ctl_var = next((ast.unparse(i.target) for i in in_row if i.kind == "assign" and T(i.value) == f"X[{ridx},:{C}]"), None)
+    rest_var = next((ast.unparse(i.target) for i in in_row if i.kind == "assign" and T(i.value) == f"X[{ridx},{C}:]"), None)
+    slices = [T(i.value) for i in in_row if i.kind == "assign" and isinstance(i.value, ast.Subscript) and T(i.value).startswith("X[")]
+    if ctl_var is None or rest_var is None:
+        if slices:
+            ctx.oblige("CONSUME", where, f"row slices {slices}", False, file=F, func=q, construct="control split",
+                       msg=f"the row is split as {slices}; required X[{ridx}, :{C}] (controls) and X[{ridx}, {C}:] (sensor columns)")
+        else:
+            ctx.error(f"{where}: no slices of the data row found")
+    else:
+        ctx.oblige("CONSUME", where, f"controls = X[{ridx}, :{C}], remainder = X[{ridx}, {C}:]", True, file=F, func=q, construct="control split")
+    # ---- prediction
+    procs = [(i, c) for i in in_row for c in calls_in(i, ".process_model")]
+    okp = len(procs) == 1
+    ctl_ok = False
+    if okp:
+        i, call = procs[0]
+        args = [T(a) for a in call.args] + [f"{k.arg}={T(k.value)}" for k in call.keywords]
+        tg = normstmt.unparen(ast.unparse(i.target).replace(" ", "")) if i.target is not None else ""
+        dt_ok = False
+        if call.args:
+            d = al.subst(call.args[0])
+            dt_ok = isinstance(d, ast.Constant) and isinstance(d.value, float) and d.value > 0
+            if isinstance(d, ast.Name):
+                defs = [x.value for x in items if x.kind == "assign" and isinstance(x.target, ast.Name) and x.target.id == d.id]
+                dt_ok = len(defs) == 1 and isinstance(defs[0], ast.Constant) and isinstance(defs[0].value, float) and defs[0].value > 0 \
+                    and not any(x.loops for x in items if x.kind == "assign" and isinstance(x.target, ast.Name) and x.target.id == d.id)
+        okp = dt_ok and len(call.args) == 4 and args[1:3] == ["state", "covariance"] and tg == "state,covariance"
+        why = f"process_model({', '.join(args)}) -> {tg}; required (fixed positive dt, state, covariance, controls) -> state, covariance"
+        # the control argument: Control.from_data(<control slice>.reshape((C, 1)))
+        if len(call.args) == 4 and ctl_var is not None:
+            carg = call.args[3]
+            cands = [T(carg)]
+            if isinstance(carg, ast.Name):
+                cands += [T(x.value) for x in in_row if x.kind == "assign" and ast.unparse(x.target) == carg.id]
+            want = {f"self.model_.Control.from_data({ctl_var}.reshape(({C},1)))", f"self.model_.Control.from_data(X[{ridx},:{C}].reshape(({C},1)))"}
+            ctl_ok = any(c in want for c in cands)
+        ctx.oblige("SEQUENCE", where, "controls -> Control.from_data(column of control_size)", ctl_ok, file=F, func=q, construct="control reading",
+                   msg="the control passed to process_model is not Control.from_data of the row's control columns")
+    else:
+        why = f"{len(procs)} process_model calls per row"
+    ctx.oblige("SEQUENCE", where, "one prediction per row with the fixed step, threading (state, covariance)", okp, file=F, func=q, construct="process call", msg=why)
+    pos = {id(i.stmt): n for n, i in enumerate(items)}
+    first_sens = next(n for n, i in enumerate(items) if i.stmt is sens)
+    order_ok = bool(procs) and pos[id(procs[0][0].stmt)] < first_sens
     ctx.oblige("SEQUENCE", where, "prediction precedes the sensor updates", order_ok, file=F, func=q, construct="predict before update",
                msg="per row the sensor updates do not follow the single prediction")
-    it = inner.iter
+    # ---- sensor order
+    it = sens.iter
+    key = None
     if isinstance(it, ast.Call) and isinstance(it.func, ast.Name) and it.func.id == "enumerate" and it.args:
         it = it.args[0]
-        key = inner.target.elts[1].id if isinstance(inner.target, ast.Tuple) else None
-    else:
-        key = inner.target.id if isinstance(inner.target, ast.Name) else None
-    itx = ast.unparse(it).replace(" ", "")
-    ok_sorted = itx in ("sorted(list(self.model_.sensor_models))", "sorted(self.model_.sensor_models)", "sorted(self.model_.sensor_models.keys())",
-                        "sorted(list(self.model_.sensor_models.keys()))")
-    ctx.oblige("CONSUME", where, f"sensors iterated by `{ast.unparse(it)}`", ok_sorted, file=F, func=q, construct="sensor order",
-               msg=f"sensors are visited through `{ast.unparse(it)}` (declaration / insertion order), not in sorted key order: the documented "
+        key = sens.target.elts[1].id if isinstance(sens.target, ast.Tuple) and isinstance(sens.target.elts[1], ast.Name) else None
+    elif isinstance(sens.target, ast.Name):
+        key = sens.target.id
+    itx = T(it)
+    SM = "self.model_.sensor_models"
+    ok_sorted = itx in (f"sorted(list({SM}))", f"sorted({SM})", f"sorted({SM}.keys())", f"sorted(list({SM}.keys()))")
+    if not ok_sorted and key is None:
+        ctx.error(f"{where}: per-sensor loop target not understood")
+    ctx.oblige("CONSUME", where, f"sensors iterated by `{itx}`", ok_sorted, file=F, func=q, construct="sensor order",
+               msg=f"sensors are visited through `{itx}`, not in sorted key order of the compiled filter's sensors: the documented "
                    f"column blocks are handed to the wrong sensors")
-    # per-sensor statements
-    size_name = None
-    split = reading = upd = app = None
-    for s in inner.body:
-        if isinstance(s, ast.Assign):
-            v = ast.unparse(s.value).replace(" ", "")
-            t = ast.unparse(s.targets[0]).replace(" ", "").strip("()")
-            if v == f"len(self.model_.sensor_models[{key}])" or v == f"self.model_.sensor_models[{key}].sensor_size":
-                size_name = t
-            elif isinstance(s.value, ast.Tuple) and len(s.value.elts) == 2 and all(isinstance(e, ast.Subscript) for e in s.value.elts):
-                split = s
-            elif "make_reading" in v:
-                reading = s
-            elif ".sensor_model(" in v:
-                upd = s
-        elif isinstance(s, ast.Expr) and isinstance(s.value, ast.Call) and ast.unparse(s.value.func).endswith(".append"):
-            app = s.value
-    oks, why = False, "no `reading, rest = rest[:n], rest[n:]` split with n = len(model_.sensor_models[key]) found"
-    rd_name = None
-    if split is not None and size_name and isinstance(split.targets[0], ast.Tuple):
-        a, b = (ast.unparse(e).replace(" ", "") for e in split.value.elts)
-        rd_name, rest2 = (t.id if isinstance(t, ast.Name) else None for t in split.targets[0].elts)
-        oks = a == f"{rest_name}[:{size_name}]" and b == f"{rest_name}[{size_name}:]" and rest2 == rest_name
-        why = f"sensor columns split as `{a}` / `{b}` -> ({rd_name}, {rest2}); required {rest_name}[:{size_name}] / {rest_name}[{size_name}:] -> (reading, {rest_name})"
-    ctx.oblige("CONSUME", where, "per sensor: next len(sensor) columns, remainder threaded", oks, file=F, func=q, construct="sensor split", msg=why)
-    okr = False
+    # ---- per-sensor consumption
+    n_txt = {f"len({SM}[{key}])", f"{SM}[{key}].sensor_size", f"len({SM}[{key}].readings)"}
+    rd_var = split_ok = None
+    bad_slices = []
+    for i in in_sens:
+        if i.kind != "assign" or not isinstance(i.value, ast.Subscript) or rest_var is None:
+            continue
+        v = T(i.value)
+        if not v.startswith(f"{rest_var}["):
+            continue
+        tgt = ast.unparse(i.target)
+        if any(v == f"{rest_var}[:{n}]" for n in n_txt):
+            rd_var = tgt
+        elif any(v == f"{rest_var}[{n}:]" for n in n_txt) and tgt == rest_var:
+            split_ok = True
+        else:
+            bad_slices.append(f"{tgt} = {v}")
+    if rest_var is not None:
+        if bad_slices:
+            ctx.oblige("CONSUME", where, f"sensor slices {bad_slices}", False, file=F, func=q, construct="sensor split",
+                       msg=f"per sensor the remainder is sliced as {bad_slices}; required the next len(sensor) columns and the remainder after them")
+        elif rd_var is None or not split_ok:
+            ctx.error(f"{where}: per-sensor `reading = rest[:n]; rest = rest[n:]` consumption not found")
+        else:
+            ctx.oblige("CONSUME", where, "per sensor: next len(sensor) columns, remainder threaded", True, file=F, func=q, construct="sensor split")
+    # ---- make_reading / sensor_model / NIS
+    mk = [(i, c) for i in in_sens for c in calls_in(i, ".make_reading")]
+    upd_l = [(i, c) for i in in_sens for c in calls_in(i, ".sensor_model")]
     rname = None
-    if reading is not None and rd_name:
-        v = ast.unparse(reading.value).replace(" ", "")
-        rname = ast.unparse(reading.targets[0])
-        okr = v == f"self.model_.make_reading({key},data={rd_name}.reshape(({size_name},1)))"
+    okr = False
+    if len(mk) == 1 and rd_var is not None:
+        i, c = mk[0]
+        rname = ast.unparse(i.target) if i.target is not None else None
+        want = {f"self.model_.make_reading({key},data={rd_var}.reshape(({n},1)))" for n in n_txt}
+        okr = T(c) in want
     ctx.oblige("SEQUENCE", where, "reading = make_reading(key, data=column of the sensor's size)", okr, file=F, func=q, construct="make_reading",
                msg="the reading passed to sensor_model is not make_reading(key, data=<this sensor's columns>)")
     oku = False
-    if upd is not None:
-        call = upd.value
-        kws = {k.arg: ast.unparse(k.value) for k in call.keywords}
-        pos = [ast.unparse(a) for a in call.args]
-        tg = ast.unparse(upd.targets[0]).replace(" ", "").strip("()")
-        st = kws.get("state", pos[0] if pos else None)
-        cv = kws.get("covariance", pos[1] if len(pos) > 1 else None)
-        oku = st == "state" and cv == "covariance" and kws.get("sensor_key") == key and kws.get("sensor_reading") == rname and tg == "state,covariance"
+    upd = None
+    if len(upd_l) == 1:
+        upd, call = upd_l[0]
+        kws = {k.arg: T(k.value) for k in call.keywords}
+        posa = [T(a) for a in call.args]
+        tg = normstmt.unparen(ast.unparse(upd.target).replace(" ", "")) if upd.target is not None else ""
+        st = kws.get("state", posa[0] if posa else None)
+        cv = kws.get("covariance", posa[1] if len(posa) > 1 else None)
+        rtxts = {rname} | ({T(mk[0][1])} if mk else set())
+        oku = st == "state" and cv == "covariance" and kws.get("sensor_key") == key and kws.get("sensor_reading") in rtxts and tg == "state,covariance"
     ctx.oblige("SEQUENCE", where, "state, covariance = sensor_model(state, covariance, sensor_key=key, sensor_reading=reading)", oku, file=F, func=q,
                construct="sensor_model call", msg="the per-sensor update is not applied to the threaded (state, covariance) with this sensor's key and reading")
-    # ---- NIS
+    apps = [(i, c) for i in in_sens if i.kind == "expr" for c in [i.value] if isinstance(c, ast.Call) and ast.unparse(c.func).endswith(".append")]
     okn, why = False, "no NIS value appended per sensor"
-    if app is not None and app.args:
+    if apps and apps[0][1].args:
         atoms = {f"self.model_.innovations[{key}]": ("y", False), f"self.model_.sensor_prediction_uncertainty[{key}]": ("S", True)}
-        form = mat(app.args[0], {}, atoms)
+        form = mat(al.subst(apps[0][1].args[0]), {}, atoms)
         want = MatForm.atom("y").T() * MatForm.atom("S", True).inv() * MatForm.atom("y")
         okn = form is not None and form == want
         why = f"appended value normalises to {form!r}; required {want!r} (records of the same sensor key)"
     ctx.oblige("NIS-FORM", where, "appended value = y^T.Inv(S).y", okn, file=F, func=q, construct="NIS", msg=why)
-    # order inside the sensor loop: split -> reading -> update -> append
-    order = [id(x) for x in (split, reading, upd)]
-    pos = {id(s): i for i, s in enumerate(inner.body)}
-    apps = next((i for i, s in enumerate(inner.body) if isinstance(s, ast.Expr) and s.value is app), None)
-    ok_ord = all(x in pos for x in order) and apps is not None and pos[order[0]] < pos[order[1]] < pos[order[2]] < apps
-    ctx.oblige("SEQUENCE", where, "per sensor: split, make_reading, sensor_model, then the NIS of that update", ok_ord, file=F, func=q,
-               construct="per-sensor order", msg="the NIS is not computed from the records of the update just applied (statement order)")
+    if upd is not None and apps:
+        ok_ord = pos[id(upd.stmt)] < pos[id(apps[0][0].stmt)] and (not mk or pos[id(mk[0][0].stmt)] <= pos[id(upd.stmt)])
+        ctx.oblige("SEQUENCE", where, "per sensor: make_reading, sensor_model, then the NIS of that update", ok_ord, file=F, func=q,
+                   construct="per-sensor order", msg="the NIS is not computed from the records of the update just applied (statement order)")
     # rows collected in order and returned
     rets = [r for r in ast.walk(tr) if isinstance(r, ast.Return) and r.value is not None]
     okret = any(ast.unparse(r.value) == "innovations" for r in rets) and any(
